@@ -105,6 +105,15 @@ fn main() {
 /// `sharedneedle x=<hex>`: then `sfind h=..` / `srfind h=..` search with ONE
 /// Finder / FinderRev shared by all threads, and `siter h=.. k=..` iterates a
 /// clone of one shared FindIter prototype.
+#[cfg(verif_nothreads)]
+fn conc(_path: &str, _n: usize) {
+    // fallback build for the failing-input search when the finders are no longer Send + Sync
+    // (the normal build then fails to compile, which is itself reported)
+    eprintln!("concurrent mode is not available in a verif_nothreads build");
+    std::process::exit(3);
+}
+
+#[cfg(not(verif_nothreads))]
 fn conc(path: &str, n: usize) {
     use std::sync::{Arc, Barrier, Mutex};
     let text = std::fs::read_to_string(path).expect("case file");
